@@ -1405,8 +1405,29 @@ func (e *c12Env) modelOracle(out *c12Outcome) error {
 		pairs, _ := nm.MustPrecede()
 		legit := map[string]bool{}
 		evicted := func(t *pb.Transaction) bool { return !pending[string(t.Txid)] && !inBlock[string(t.Txid)] }
+		// the play's own conflict rule (processUnconfirmTxs) compares EVERY written key of a pending transaction with
+		// the block's writes, the bookkeeping keys of the $transient bucket included: two transactions that merely both
+		// emit an event "conflict" (harmless in production, where evicted transactions are re-posted; the model does not
+		// know transient keys)
+		blockWrites := map[string]bool{}
+		for _, bt := range blockTxs {
+			if inAll[string(bt.Txid)] {
+				continue // a block transaction known from the pool is no conflict partner
+			}
+			for _, oe := range bt.TxOutputsExt {
+				blockWrites[oe.Bucket+"/"+string(oe.Key)] = true
+			}
+		}
+		sharesWrittenKey := func(t *pb.Transaction) bool {
+			for _, oe := range t.TxOutputsExt {
+				if blockWrites[oe.Bucket+"/"+string(oe.Key)] {
+					return true
+				}
+			}
+			return false
+		}
 		for _, t := range all {
-			if evicted(t) && post.Check(t, h) != nil {
+			if evicted(t) && (post.Check(t, h) != nil || sharesWrittenKey(t)) {
 				legit[string(t.Txid)] = true
 			}
 		}
